@@ -832,6 +832,15 @@ pub fn c14_oracle(plan: &Plan, rr: &RunResult, o: &mut Outcome) {
                             format!("channel {} payment {}: the commitment scalar masking {} is shorter than 160 bits", ev.chan, ev.pay, zpath),
                         );
                     }
+                    // nor may the mask be one of the customer's own secrets (a blinding factor used
+                    // as its own mask gives z = (c + 1) * bf)
+                    if let Some((_, sp)) = secrets.iter().find(|(b, _)| *b == mask) {
+                        o.violate(
+                            "mask-of-hidden-value-is-a-secret",
+                            &format!("{}:{}", kind_site, strip_idx(&zpath)),
+                            format!("channel {} payment {}: the commitment scalar masking {} equals the secret held at {} of the customer's state", ev.chan, ev.pay, zpath, sp),
+                        );
+                    }
                     match by_mask.get(&mask) {
                         Some((other, oclass)) if *oclass != class || class == "digit" => {
                             o.violate(
@@ -908,6 +917,57 @@ fn strip_idx(p: &str) -> String {
     out
 }
 
+/// Freshness: the same stored customer stage, advanced twice with two different entropy streams,
+/// must get two different nonces, revocation secrets, locks and blinding factors for its new
+/// state (a "fresh" value that is a function of the old state alone is known to whoever learns
+/// the old state, which the lock message discloses).
+fn c14_freshness(o: &mut Outcome, seed: u64) {
+    use crate::rng::SimRng;
+    use zkabacus_crypto as za;
+    let m = merchant("9001");
+    let mut rng = SimRng::new(seed, "c14/fresh/establish");
+    let cid = za::ChannelId::new(za::MerchantRandomness::new(&mut rng), za::CustomerRandomness::new(&mut rng), m.cfg.signing_keypair().public_key(), b"m", b"c");
+    let ctx = za::Context::new(b"c14-fresh");
+    let (cb, mb) = (za::CustomerBalance::try_new(90).unwrap(), za::MerchantBalance::try_new(9).unwrap());
+    let (req, proof) = za::customer::Requested::new(&mut rng, &m.ccfg, cid, mb, cb, &ctx);
+    let ready = match m.cfg.initialize(&mut rng, &cid, cb, mb, proof, &ctx) {
+        Some((cs, vbs)) => req.complete(cs, &m.ccfg).ok().and_then(|i| i.activate(m.cfg.activate(&mut rng, vbs), &m.ccfg).ok()),
+        None => None,
+    };
+    let ready = match ready {
+        Some(r) => r,
+        None => crate::harness_error("C14 freshness: honest establishment failed (see C04)"),
+    };
+    let image = crate::atoms::encode(&ready);
+    let amt = za::PaymentAmount::pay_merchant(1 + seed % 5).unwrap_or_else(|_| crate::harness_error("amount"));
+    let mut imgs = Vec::new();
+    for k in 0..2 {
+        let r: za::customer::Ready = bincode::deserialize(&image).unwrap_or_else(|_| crate::harness_error("C14 freshness: ready image does not decode (see C20)"));
+        let mut e = SimRng::new(seed, &format!("c14/fresh/start/{}", k));
+        match r.start(&mut e, amt, &za::Context::new(b"c14-fresh-pay"), &m.ccfg) {
+            Ok((st, _)) => imgs.push(crate::atoms::trace(&st)),
+            Err(_) => crate::harness_error("C14 freshness: an admissible payment could not be started"),
+        }
+    }
+    o.events = 5;
+    for path in ["new_state.nonce", "new_state.revocation_pair.lock", "new_state.revocation_pair.secret.secret", "blinding_factors.for_old_revocation_lock.0", "blinding_factors.for_pay_token.0", "blinding_factors.for_close_state.0"] {
+        // tolerate newtype paths with or without the ".0" suffix
+        let p = if imgs[0].find(path).is_some() { path.to_string() } else { path.trim_end_matches(".0").to_string() };
+        match (imgs[0].find(&p), imgs[1].find(&p)) {
+            (Some(a), Some(b)) => {
+                o.bump("probe.freshness_compared");
+                if imgs[0].atom_bytes(a) == imgs[1].atom_bytes(b) {
+                    o.violate("state-not-fresh", &format!("customer::Started:{}", p), format!("two different entropy streams give the same {} for the new state: it is a function of the old state alone", p));
+                }
+            }
+            _ => crate::harness_error(&format!("C14 freshness: no atom `{}` in the Started image (field naming drift)", p)),
+        }
+    }
+    o.nontrivial = true;
+    o.shape = mix(&[0xC14F, seed]);
+    o.log_hash = mix(&[o.shape, o.violations.len() as u64]);
+}
+
 impl Prop for C14 {
     fn id(&self) -> &'static str {
         "C14"
@@ -917,7 +977,7 @@ impl Prop for C14 {
     }
     fn cases(&self, tier: Tier, seed: u64) -> CaseSet {
         CaseSet {
-            enumerated: vec![],
+            enumerated: (0..(if tier == Tier::Quick { 4u64 } else { 100 })).map(|k| json!({"f": "freshness", "seed": mix(&[seed, 0xC14F, k])})).collect(),
             random: match tier {
                 Tier::Quick => 300,
                 Tier::Thorough => 30_000,
@@ -949,24 +1009,31 @@ impl Prop for C14 {
     }
     fn run(&self, case: &Value) -> Outcome {
         let mut o = Outcome::default();
+        if case["f"] == "freshness" {
+            c14_freshness(&mut o, case["seed"].as_u64().unwrap_or(0));
+            return o;
+        }
         let plan = plan_of(case);
         let rr = run_plan(&plan, &mut o);
         c14_oracle(&plan, &rr, &mut o);
-        keep(&mut o, &["mask-shared-between-hidden-values", "mask-of-hidden-value-too-short", "mask-of-hidden-value-revealed", "value-reuse", "secret-in-message", "hidden-balance-in-message", "nonce-not-fresh", "revocation-lock-not-fresh", "channel-id-not-fresh", "panic"]);
+        keep(&mut o, &["state-not-fresh", "mask-of-hidden-value-is-a-secret", "mask-shared-between-hidden-values", "mask-of-hidden-value-too-short", "mask-of-hidden-value-revealed", "value-reuse", "secret-in-message", "hidden-balance-in-message", "nonce-not-fresh", "revocation-lock-not-fresh", "channel-id-not-fresh", "panic"]);
         o.nontrivial = o.stats.get("probe.customer_messages_checked").cloned().unwrap_or(0) >= 3;
         o
     }
     fn shrink(&self, case: &Value) -> Vec<Value> {
+        if case["f"] == "freshness" {
+            return Vec::new();
+        }
         shrink_world_case(case)
     }
     fn rule(&self) -> String {
-        "one case = one multi-channel plan (2-4 channels over two merchants, 0-3 payments each, closes from every stage, refused replies, drawn interleaving; in a third of the cases additionally a zero draw injected at a drawn draw index of the customer's generator inside start / close, in which case only signature elements are judged and the identity is exempt); after the run every 32/48/96-byte atom of every customer-to-merchant message is compared with all atoms of all earlier messages in either direction and of the public parameters (channel id exempt), with the atoms of the customer's stage image before/after the step minus what the message discloses by design, and with the scalar encodings of hidden balances; and for every response scalar over a hidden value the commitment scalar that masks it (computed from the customer's state and the merchant's challenge, read through the hook) must not occur in the merchant's view, must be a full-size field element, and must not be shared between values of different link classes. Distinct = distinct executed event/outcome sequence; non-trivial = at least three customer messages were checked".into()
+        "(freshness cases: one stored Ready stage advanced twice under two entropy streams; the new state's nonce, revocation secret, lock and the three blinding factors must all differ.) one case = one multi-channel plan (2-4 channels over two merchants, 0-3 payments each, closes from every stage, refused replies, drawn interleaving; in a third of the cases additionally a zero draw injected at a drawn draw index of the customer's generator inside start / close, in which case only signature elements are judged and the identity is exempt); after the run every 32/48/96-byte atom of every customer-to-merchant message is compared with all atoms of all earlier messages in either direction and of the public parameters (channel id exempt), with the atoms of the customer's stage image before/after the step minus what the message discloses by design, and with the scalar encodings of hidden balances; and for every response scalar over a hidden value the commitment scalar that masks it (computed from the customer's state and the merchant's challenge, read through the hook) must not occur in the merchant's view, must be a full-size field element, and must not be shared between values of different link classes. Distinct = distinct executed event/outcome sequence; non-trivial = at least three customer messages were checked".into()
     }
     fn assumptions(&self) -> Vec<String> {
         vec!["exact-value reuse is a necessary condition for unlinkability, not a proof of zero knowledge".into(), "equalities inside one message (linked response scalars) are allowed".into()]
     }
     fn required_probes(&self, _tier: Tier) -> Vec<&'static str> {
-        vec!["probe.customer_messages_checked", "probe.payment_completed", "probe.stop_at_started", "probe.stop_at_locked", "fault.entropy.customer-zero-draw", "probe.hidden_value_masks_checked"]
+        vec!["probe.customer_messages_checked", "probe.payment_completed", "probe.stop_at_started", "probe.stop_at_locked", "fault.entropy.customer-zero-draw", "probe.hidden_value_masks_checked", "probe.freshness_compared"]
     }
 }
 
